@@ -60,6 +60,10 @@ type c03In struct {
 	Files    map[string]c03SeqFile `json:"files,omitempty"`
 	SeqRules []c03SeqRule          `json:"seqrules,omitempty"`
 	Steps    []c03SeqStep          `json:"steps,omitempty"`
+	// site | hide | serve: steps on the running site BEFORE the judged request (c03_swap.go): requests,
+	// and directories / files of the root replaced on disk by new inodes. Such cases run on a copy of
+	// the fixture of their own.
+	Pre []c03PreStep `json:"pre,omitempty"`
 }
 
 const (
@@ -334,7 +338,7 @@ func c03Run(in0 interface{}) Result {
 		}
 		return Result{Term: cApp("CInternal", "false", cStr(in.P), cStrList(in.Paths), cBool(blocked)), Obs: status, Sig: "internal", Direct: direct, Nontrivial: blocked, Class: fmt.Sprintf("internal:%v", blocked)}
 	case "site":
-		root := c03Fixture()
+		root := c03RootOf(in)
 		prot, okp := c03Prots[in.Prot]
 		if !okp {
 			return Result{Term: "(CSite false false)", Obs: "unknown prot", Class: "site:unknown-prot", Sig: "site:unknown-prot"}
@@ -346,6 +350,9 @@ func c03Run(in0 interface{}) Result {
 		where, err := c03Where(in, body)
 		if err != nil {
 			return Result{Term: "(CSite false false)", Obs: "start error: " + err.Error(), Class: "site:start-error", Sig: "site:start-error"}
+		}
+		if err := c03RunPre(where, in, root); err != nil {
+			return Result{Term: "(CSite false false)", Obs: "step error: " + err.Error(), Class: "site:step-error", Sig: "site:step-error", Direct: "a step of the sequence could not be performed: " + err.Error()}
 		}
 		resp, _, emitted := c03Do(where, in)
 		views := decodedViews(resp.Body)
@@ -386,8 +393,8 @@ func c03Run(in0 interface{}) Result {
 		}
 		return Result{Term: cApp("CDisc", "false", cBool(opt), c03RuleTerms(checked, in.Creds), cStrList(checked.ipaths), cStrList(leakedRes)),
 			Obs: map[string]interface{}{"status": resp.Status, "leaked": leaked, "resources": leakedRes, "violating": viol, "accel": emitted, "len": len(resp.Body), "err": resp.Err, "location": resp.Header.Get("Location")},
-			Sig: sig, Nontrivial: resp.Status != 404 && resp.Status != 0, Key: body + "|" + in.Method + in.Target + in.Creds + in.AE + in.XReq,
-			Class: fmt.Sprintf("site:%s:%s:%d", in.Prot, in.Creds, resp.Status)}
+			Sig: sig, Nontrivial: resp.Status != 404 && resp.Status != 0, Key: body + "|" + in.Method + in.Target + in.Creds + in.AE + in.XReq + c03PreKey(in),
+			Class: fmt.Sprintf("site%s:%s:%s:%d", c03PreShape(in), in.Prot, in.Creds, resp.Status)}
 	case "chain":
 		// canonical-order site: rewriters + protection + `proxy / BACKEND`; the final path is measured
 		// on the twin site without the protection directives
@@ -474,7 +481,7 @@ func c03Run(in0 interface{}) Result {
 			Class: fmt.Sprintf("accel:%d:%d", status, len(seen))}
 	case "hide":
 		// `internal` + browse: what a listing (HTML/JSON) or an archive of a directory names
-		root := c03Fixture()
+		root := c03RootOf(in)
 		prot, okp := c03Prots[in.Prot]
 		u, perr := url.ParseRequestURI(in.Target)
 		if !okp || perr != nil {
@@ -484,6 +491,9 @@ func c03Run(in0 interface{}) Result {
 		where, err := c03Where(in, body)
 		if err != nil {
 			return Result{Term: "(CSite false false)", Obs: "start error: " + err.Error(), Class: "hide:start-error", Sig: "hide:start-error"}
+		}
+		if err := c03RunPre(where, in, root); err != nil {
+			return Result{Term: "(CSite false false)", Obs: "step error: " + err.Error(), Class: "hide:step-error", Sig: "hide:step-error", Direct: "a step of the sequence could not be performed: " + err.Error()}
 		}
 		resp, _, _ := c03Do(where, in)
 		d := path.Clean("/" + u.Path)
@@ -508,10 +518,10 @@ func c03Run(in0 interface{}) Result {
 		}
 		return Result{Term: cApp("CHide", cStrList(prot.ipaths), cStr(u.Path), cBool(kind == "archive"), c03TreeTerm(filepath.Join(root, filepath.FromSlash(d))), cStrList(names)),
 			Obs: map[string]interface{}{"status": resp.Status, "kind": kind, "dir": d, "names": names, "internal": bad}, Sig: sig,
-			Nontrivial: true, Key: body + "|" + in.Target + in.Creds + in.Accept, Class: fmt.Sprintf("hide:%s:%s", in.Prot, kind)}
+			Nontrivial: true, Key: body + "|" + in.Target + in.Creds + in.Accept + c03PreKey(in), Class: fmt.Sprintf("hide%s:%s:%s", c03PreShape(in), in.Prot, kind)}
 	case "serve":
 		// `internal` + the static file server alone: which file's bytes does GET p obtain
-		root := c03Fixture()
+		root := c03RootOf(in)
 		prot, okp := c03Prots[in.Prot]
 		u, perr := url.ParseRequestURI(in.Target)
 		if !okp || perr != nil || len(prot.rules) > 0 {
@@ -521,6 +531,9 @@ func c03Run(in0 interface{}) Result {
 		where, err := c03Where(in, body)
 		if err != nil {
 			return Result{Term: "(CSite false false)", Obs: "start error: " + err.Error(), Class: "serve:start-error", Sig: "serve:start-error"}
+		}
+		if err := c03RunPre(where, in, root); err != nil {
+			return Result{Term: "(CSite false false)", Obs: "step error: " + err.Error(), Class: "serve:step-error", Sig: "serve:step-error", Direct: "a step of the sequence could not be performed: " + err.Error()}
 		}
 		in.Method = "GET"
 		resp, _, _ := c03Do(where, in)
@@ -555,7 +568,7 @@ func c03Run(in0 interface{}) Result {
 		}
 		return Result{Term: cApp("CServe", cStrList(prot.ipaths), cStrList(idx), cStrList(exts), cStrList(files), cStrList(dirs), cStr(u.Path), cStrList(served)),
 			Obs: map[string]interface{}{"status": resp.Status, "served": served, "encoding": resp.Header.Get("Content-Encoding")}, Sig: sig,
-			Nontrivial: len(served) > 0 || resp.Status == 404, Key: body + "|" + in.Target + in.AE, Class: fmt.Sprintf("serve:%s:%d:%d", in.Prot, resp.Status, len(served))}
+			Nontrivial: len(served) > 0 || resp.Status == 404, Key: body + "|" + in.Target + in.AE + c03PreKey(in), Class: fmt.Sprintf("serve%s:%s:%d:%d", c03PreShape(in), in.Prot, resp.Status, len(served))}
 	case "block":
 		return c03RunBlock(in)
 	case "seq":
@@ -1053,6 +1066,7 @@ func c03Gen(r *Rand, tier string) []interface{} {
 	}
 	// blocks, htpasswd matchers and request sequences: their case terms are large, so they are spread
 	// evenly (in runs of 8, which keeps a block's cases together) over the shards
+	out = append(out, c03GenSwap(r, tier)...)
 	extra := c03GenState(r, tier)
 	nchunks := (len(extra) + 7) / 8
 	if nchunks == 0 {
@@ -1122,7 +1136,7 @@ func c03FilterBrowse(xs []string) []string {
 func init() {
 	register(&Property{
 		ID: "C03", Imports: "V.Lib V.GoPath V.C03_Model", Judge: "judge",
-		Rule: "source scan for assignments to a request's URL path; internalsrv.Internal over scripted inner handlers (X-Accel-Redirect response/request headers, loops); canonical-order sites (rewriters incl. prefix-stripping and capture rewrites, tryfiles, ext x 1-3 basicauth rules with nested excludes x internal x proxy to a recording backend that can answer X-Accel-Redirect) compared with the chain model on the final path measured on the unprotected twin site; direct Path.Matches calls on generated spellings/bases; basicauth rules built by the real directive parser (resources, excludes, which credentials the request carries) and internal; full in-process sites (protection directive x random subset of rewrite/tryfiles/ext/index/gzip/browse+archives/templates/markdown/proxy/header/errors/mime) queried over raw request lines with path spellings x methods x credentials x Accept-Encoding, decoded bodies (gunzip/unzip/untar) searched for planted tokens; server blocks with 2-3 addresses (host names on one port / several ports / both) for the hide, serve and site configurations, the request sent to EVERY address and each answer judged like a single site's; basicauth.GetHtpasswdMatcher on generated htpasswd texts (plain, {PLAIN}, {SHA}, apr1, noise, overridden users, malformed lines); request SEQUENCES on one running site with htpasswd-file rules (every ordered pair of users: login, the other name with that password, wrong/no credentials; files replaced and the site restarted, incl. unloadable files) judged per request on status + planted tokens; non-trivial = matcher true / 401 issued / site answered something other than 404",
+		Rule: "source scan for assignments to a request's URL path; internalsrv.Internal over scripted inner handlers (X-Accel-Redirect response/request headers, loops); canonical-order sites (rewriters incl. prefix-stripping and capture rewrites, tryfiles, ext x 1-3 basicauth rules with nested excludes x internal x proxy to a recording backend that can answer X-Accel-Redirect) compared with the chain model on the final path measured on the unprotected twin site; direct Path.Matches calls on generated spellings/bases; basicauth rules built by the real directive parser (resources, excludes, which credentials the request carries) and internal; full in-process sites (protection directive x random subset of rewrite/tryfiles/ext/index/gzip/browse+archives/templates/markdown/proxy/header/errors/mime) queried over raw request lines with path spellings x methods x credentials x Accept-Encoding, decoded bodies (gunzip/unzip/untar) searched for planted tokens; server blocks with 2-3 addresses (host names on one port / several ports / both) for the hide, serve and site configurations, the request sent to EVERY address and each answer judged like a single site's; basicauth.GetHtpasswdMatcher on generated htpasswd texts (plain, {PLAIN}, {SHA}, apr1, noise, overridden users, malformed lines); request SEQUENCES on one running site with htpasswd-file rules (every ordered pair of users: login, the other name with that password, wrong/no credentials; files replaced and the site restarted, incl. unloadable files) judged per request on status + planted tokens; REPLACEMENT sequences on one running site (a copy of the fixture of their own): a request that evaluates the hide list, then the internal / basicauth-protected directory or file or a directory it lies in replaced on disk by a new inode (copy + rename), then listings (HTML / JSON) and zip / tar archives of every ancestor and the protected files themselves without credentials, and with valid ones; longer histories replace twice; each judged as a site / hide / serve case; non-trivial = matcher true / 401 issued / site answered something other than 404",
 		Gen:    c03Gen,
 		Decode: func(raw json.RawMessage) (interface{}, error) { in := &c03In{}; return in, json.Unmarshal(raw, in) },
 		Run:    c03Run,
